@@ -8,7 +8,10 @@ correspond(): generated sims (scalar and age-specific fertility, gestation / pos
               conceived, post-partum durations, maternal-death flags, sexes, neonatal deaths) go to Model/Pregnancy.lean,
               which must predict the state after the call.  An analyzer probe sends the state of every step to the model,
               which evaluates its invariants.
-search():     the invariants of the property evaluated directly on the real arrays at every step (no model).
+search():     the invariants of the property evaluated directly on the real arrays at every step (no model), on the
+              generated sims, the fixed families and EVERY entry of the shared scenario zoo (harness/zoo.py; search_zoo):
+              ageing per step on all entries (ageing switched on where it is off by default), all pregnancy oracles on
+              the entries with ss.Pregnancy (which correspond() also follows with the model).
 """
 import math
 import numpy as np
@@ -25,7 +28,9 @@ RULE = ('sim configurations drawn from VERIF_SEED: fertility scalar or age-speci
 TRUSTED = ['the wrappers of harness/props/c19.py read people / module arrays (raw storage up to uid.len_used) without writing']
 ASSUMPTIONS = ['fertility rates, uniform draws (>= 0), post-partum durations, maternal-death flags, sexes, neonatal-death picks and '
                'deaths requested by other modules are arbitrary inputs of the model',
-               'timers (float32 storage) are compared with relative tolerance 2e-6, ages (float accumulation) with 1e-4']
+               'timers (float32 storage) are compared with relative tolerance 2e-6, ages (float accumulation) with 1e-4; the per-step '
+               'age increment is compared with the step length in years (dt x unit / 365.25 days, from the configuration) within one '
+               'float32 unit in the last place of the age']
 
 TOL_T = 2e-6   # module timers are stored as float32
 TOL_AGE = 1e-4
@@ -410,8 +415,9 @@ def oracle_snapshot(ti, s):
                 fails.append((dict(oracle='unborn-has-mother'), f"ti={ti}: unborn agent {c} (age {s['age'][c]:.3f}) has no parent")); break
             m = int(m)
             if s['active'][m] and s['alive'][m] and not (s['pregnant'][m] and onat(s['child'][m]) == str(c)):
+                delivered = bool(s['postpartum'][m] and onat(s['child'][m]) == str(c))    # run_oracle relates it to the age at delivery
                 fails.append((dict(oracle='unborn-has-pregnant-mother'),
-                              f"ti={ti}: unborn agent {c} (age {s['age'][c]:.3f}) is alive but its living mother {m} is not pregnant with it (pregnant={bool(s['pregnant'][m])}, child_uid={onat(s['child'][m])})")); break
+                              f"ti={ti}: unborn agent {c} (age {s['age'][c]:.3f}) is alive but its living mother {m} is not pregnant with it (pregnant={bool(s['pregnant'][m])}, child_uid={onat(s['child'][m])})", dict(delivered_child=c) if delivered else None)); break
     if s['has_pre']:
         live = [(a, b) for (a, b, be, d, st, sp) in s['pre'] if be > 0]
         preg = sorted(int(u) for u in range(n) if s['pregnant'][u] and s['active'][u])
@@ -454,26 +460,51 @@ def ageing_fails(pti, ps, ti, s, dty):
 
 
 def expected_pars(cfg, zoo, code):
-    """ step length, gestation and age limits re-derived from the configuration (not read back from the module) wherever
-        the configuration determines them: the module steps on the simulation's timeline in every own-format configuration
-        and in every zoo entry whose pregnancy dict has no time keys of its own; otherwise the values read from the
-        module (`code`) are kept. """
+    """ step lengths, gestation and age limits re-derived from the configuration (not read back from the module) wherever
+        the configuration determines them.  dty = step of the SIMULATION in years (the clock of ageing), dtm = step of the
+        PREGNANCY MODULE in years (the clock that counts gestation, ti_pregnant / ti_delivery and the burn-in steps),
+        gy = gestation in years, g = gestation in module steps.  Own-format configurations put the module on the simulation's
+        timeline.  Zoo format: `dt` / `unit` of the pregnancy dict give the module's own timeline (ss.Pregnancy's unit defaults
+        to the year), `dur_pregnancy=(value, unit)` the gestation (default ss.years(0.75)).  Where the module's step cannot be
+        told from the configuration (non-year sim without an explicit module dt) the module's own report (`code`) is kept. """
     p = dict(code)
-    p['dty'] = step_years(cfg)
-    if zoo:
-        d = [x for x in cfg.get('demographics', []) if x.get('type') == 'pregnancy'][0]
-        if any(k in d for k in ('dt', 'unit', 'start', 'stop')) or (cfg.get('unit') or 'year') != 'year':
-            return p     # a module timeline of its own: gestation in module steps as the module reports it
-        gy, lo, hi = 0.75, 15.0, 50.0      # the documented defaults: ss.years(0.75), min_age 15, max_age 50
-    else:
+    p['dty'] = step_years(cfg); p['dtm'] = p['dty']
+    if not zoo:
         gy, lo, hi = float(cfg['dur_pregnancy']), float(cfg['min_age']), float(cfg['max_age'])
-    p.update(gy=gy, g=gy / p['dty'], minage=lo, maxage=hi)
+        p.update(gy=gy, g=gy / p['dtm'], minage=lo, maxage=hi)
+        return p
+    d = [x for x in cfg.get('demographics', []) if x.get('type') == 'pregnancy'][0]
+    p.update(minage=15.0, maxage=50.0)          # the documented defaults
+    gy = 0.75
+    if 'dur_pregnancy' in d:
+        v, u = d['dur_pregnancy']; gy = float(v) * DAYS[u] / DAYS['year']
+    munit = d.get('unit') or 'year'
+    if d.get('dt') is not None: mdt = float(d['dt'])
+    elif munit == (cfg.get('unit') or 'year'): mdt = float(cfg.get('dt', 1.0))
+    else:
+        p['dtm'] = code['gy'] / code['g'] if code['g'] else p['dty']      # as the module reports it
+        return p
+    p['dtm'] = mdt * DAYS[munit] / DAYS['year']
+    p.update(gy=gy, g=gy / p['dtm'])
     return p
+
+
+OWN_CLOCK = 'pregnancy-dt-differs-from-sim-dt'
+SIG_BURNIN_SHIFT = dict(oracle='newborn-age', timeline=OWN_CLOCK, asis='burn-in-shift-by-sim-dt')
+SIG_LUMPED_AGEING = dict(oracle='age-at-delivery', timeline=OWN_CLOCK, asis='embryo-aged-once-per-sim-step')
 
 
 def oracle_history(cfg, events, snaps, pars):
     fails = []
-    g = pars['g']; dty = pars['dty']
+    g = pars['g']; dty = pars['dty']; dtm = pars.get('dtm', dty)
+    own_clock = abs(dtm - dty) > 1e-12          # the module steps on a timeline of its own
+    created = {}                                # child -> (module step of conception, sim.ti at that call)
+    # the module's clock at every analyzer call: the last module step executed so far (ev['ti'] counts module steps, the
+    # snapshots are taken once per SIMULATION step)
+    dosteps = [(ev['simti'], ev['ti']) for ev in events if ev['op'] == 'dostep']
+    def mti_at(simti):
+        l = [t for st, t in dosteps if st <= simti]
+        return max(l) if l else simti
     # conception eligibility (state before the call that conceived)
     for ev in events:
         if ev['op'] != 'dostep' or ev.get('err'): continue
@@ -499,11 +530,17 @@ def oracle_history(cfg, events, snaps, pars):
         for c, m in zip(new, ev['conceive']):
             if onat(post['parent'][c]) != str(m) or onat(post['child'][m]) != str(c):
                 fails.append((dict(oracle='links'), f"do_step ti={ev['ti']}: new agent {c}: parent {onat(post['parent'][c])}, mother {m} has child_uid {onat(post['child'][m])}")); break
-            exp_age = -pars['gy'] + (-ev['ti'] * dty if ev['ti'] < 0 else 0)
+            created[c] = (ev['ti'], ev['simti'])
+            # a burn-in conception at module step ti < 0 happened |ti| MODULE steps before the start
+            exp_age = -pars['gy'] + (-ev['ti'] * dtm if ev['ti'] < 0 else 0)
             if abs(post['age'][c] - exp_age) > TOL_AGE:
-                fails.append((dict(oracle='newborn-age'), f"do_step ti={ev['ti']}: embryo {c} has age {post['age'][c]:.4f}, expected {exp_age:.4f} (-gestation)")); break
+                asis = -pars['gy'] + (-ev['ti'] * dty if ev['ti'] < 0 else 0)     # demographics.py make_embryos: -ti * sim.t.dt_year
+                sig = dict(SIG_BURNIN_SHIFT) if (own_clock and ev['ti'] < 0 and abs(post['age'][c] - asis) <= TOL_AGE) else dict(oracle='newborn-age')
+                fails.append((sig, f"do_step ti={ev['ti']}: embryo {c} has age {post['age'][c]:.4f}, expected {exp_age:.4f} (-gestation"
+                                   f"{f' + {-ev[chr(116)+chr(105)]} module steps of {dtm:.4f} years before the start' if ev['ti'] < 0 else ''})")); break
     # delivery time, age at delivery, ageing, postnatal lifetime
     prev = None; conc = {}; post_live = {}
+    known_children = pars.setdefault('_lumped_children', set())
     for ti, s in snaps:
         n = s['n']
         for m in range(n):
@@ -515,20 +552,32 @@ def oracle_history(cfg, events, snaps, pars):
                 if ps['pregnant'][m] and not s['pregnant'][m] and s['postpartum'][m] and s['active'][m]:
                     tc = conc.get(m)
                     if tc is not None:
-                        exp = math.ceil(tc + g - 1e-9)
-                        if ti != max(exp, 0):
-                            fails.append((dict(oracle='delivery-time'), f"agent {m} conceived at ti={tc} with gestation {g:.4f} steps delivered at ti={ti}, expected {max(exp, 0)}"))
+                        # gestation is counted on the module's clock: the delivery step lies among the module steps executed
+                        # since the previous analyzer call (same timeline: exactly the step ti)
+                        exp = max(math.ceil(tc + g - 1e-9), 0); lo, hi = mti_at(pti), mti_at(ti)
+                        if not (lo < exp <= hi):
+                            fails.append((dict(oracle='delivery-time'), f"agent {m} conceived at ti={tc} with gestation {g:.4f} steps delivered at "
+                                          f"{f'ti={ti}' if (lo, hi) == (pti, ti) else f'a module step in ({lo}, {hi}] (sim ti={ti})'}, expected {exp}"))
                         c = s['child'][m]
                         if c == c:
-                            age = s['age'][int(c)]
-                            if not (-TOL_AGE <= age < dty + TOL_AGE):
-                                fails.append((dict(oracle='age-at-delivery'), f"child {int(c)} of {m} is {age:.4f} years old at delivery (ti={ti}); expected within one step ({dty:.4f}) of 0"))
+                            c = int(c); age = s['age'][c]
+                            # delivery = gestation rounded up to a module step; seen at the next analyzer call: below one step of either clock
+                            bound = max(dty, dtm)
+                            if not (-TOL_AGE <= age < bound + TOL_AGE):
+                                sig = dict(oracle='age-at-delivery')
+                                if own_clock and c in created:
+                                    # what the code does: embryo at -gestation (+ |ti| SIM steps in burn-in), then one sim step of age per
+                                    # simulation step, whatever happened on the module's finer clock in between
+                                    tcm, st0 = created[c]
+                                    asis = -pars['gy'] + (-tcm * dty if tcm < 0 else 0) + dty * (ti - st0)
+                                    if abs(age - asis) <= TOL_AGE: sig = dict(SIG_LUMPED_AGEING); known_children.add(c)
+                                fails.append((sig, f"child {c} of {m} is {age:.4f} years old at delivery (ti={ti}); expected within one step ({bound:.4f}) of 0"))
                 if ps['pregnant'][m] and ps['active'][m] and s['active'][m] and ps['tidel'][m] == ps['tidel'][m] and ps['tidel'][m] <= pti - 1e-9 and False:
                     pass
             fails += ageing_fails(pti, ps, ti, s, dty)
         # overdue pregnancies: pregnant with ti_delivery <= ti after the step's update_states
         for m in range(n):
-            if s['pregnant'][m] and s['active'][m] and s['tidel'][m] == s['tidel'][m] and s['tidel'][m] <= ti - 1e-9:
+            if s['pregnant'][m] and s['active'][m] and s['tidel'][m] == s['tidel'][m] and s['tidel'][m] <= mti_at(ti) - 1e-9:
                 fails.append((dict(oracle='delivery-time'), f"ti={ti}: agent {m} is still pregnant although ti_delivery = {s['tidel'][m]:.3f}")); break
         for (a, b, be, d, st, sp) in s['post']:
             if be > 0: post_live[(a, b)] = post_live.get((a, b), []) + [(ti, d)]
@@ -543,10 +592,17 @@ def oracle_history(cfg, events, snaps, pars):
 def run_oracle(cfg, zoo=False):
     sim, events, snaps = run_recorded(cfg, zoo=zoo)
     pars = expected_pars(cfg, zoo, pars_of(sim))
+    hist = oracle_history(cfg, events, snaps, pars)
     fails = []
     for ti, s in snaps:
-        fails += oracle_snapshot(ti, s)
-    fails += oracle_history(cfg, events, snaps, pars)
+        for f in oracle_snapshot(ti, s):
+            sig, what, extra = (tuple(f) + (None,))[:3]
+            # a child already delivered (mother post-partum, link intact) that still has a negative age is the age-at-delivery
+            # violation seen from the child's side; where that delivery was attributed to the module-clock finding, so is this
+            if extra and extra.get('delivered_child') in pars.get('_lumped_children', ()):
+                continue      # reported once, by oracle_history, with the module-clock signature
+            fails.append((sig, what))
+    fails += hist
     out = []; seen = set()
     for sig, what in fails:
         k = tuple(sorted(sig.items()))
